@@ -64,7 +64,7 @@ fn real_main(args: &[String]) -> i32 {
             skip_slow: opt(args, "--skip-slow").is_some(),
             resume: opt(args, "--resume").and_then(|s| s.split_once(',').and_then(|(a, b)| b.parse().ok().map(|n| (a.to_string(), n)))),
             trace_first: opt(args, "--trace-first").and_then(|s| s.parse().ok()).unwrap_or(0),
-            watchdog_secs: opt(args, "--watchdog").and_then(|s| s.parse().ok()).unwrap_or(10),
+            watchdog_secs: opt(args, "--watchdog").and_then(|s| s.parse().ok()).unwrap_or(20),
         };
         return driver::worker_main(a);
     }
